@@ -217,6 +217,15 @@ def checked(rep, c):
                 if a.get("k") == "MethodCall" and a["m"] in ("then_some", "then") and k2 == "args" and spelled(a["recv"]):
                     ok = True
             if not ok:
+                # `input.get(pos..)?;` as a statement of its own before the literal: decided path by path
+                try:
+                    reach = [ev for (ev, o) in hirq.exits(hirq.PathEnum(b).paths()) if any(e.node is lit for e in ev)]
+                    ok = bool(reach) and all(hirq.option_outcome(
+                        ev, lambda y: str_get_over(y, params) is not None and str_get_over(y, params) == stored) == "some"
+                        for ev in reach)
+                except hirq.TooManyPaths:
+                    ok = False
+            if not ok:
                 r.violation(key, where(lit),
                             "%s builds %s from its offset parameters on a path where `input.get(..)` over exactly those "
                             "offsets has not succeeded: offsets that are unordered, out of range or inside a multi-byte "
